@@ -28,6 +28,29 @@ End Order.
 
 Definition doc_cmp := path_cmp varint.
 
+(* The same order with the element kinds kept apart (an array index sorts before an object key;
+   the two never meet as siblings in one document): a total order on paths, used to state the merge. *)
+Section Lexg.
+  Context {A : Type}.
+  Variable ec : A -> A -> comparison.
+  Fixpoint lexg (p q : list A) : comparison :=
+    match p, q with
+    | [], [] => Eq
+    | [], _ :: _ => Lt
+    | _ :: _, [] => Gt
+    | a :: p', b :: q' => match ec a b with Eq => lexg p' q' | c => c end
+    end.
+End Lexg.
+
+Definition telem_cmp (a b : pelem) : comparison :=
+  match a, b with
+  | PK x, PK y => lex_cmp x y
+  | PI x, PI y => x ?= y
+  | PI _, PK _ => Lt
+  | PK _, PI _ => Gt
+  end.
+Definition tcmp : path -> path -> comparison := lexg telem_cmp.
+
 Definition pelem_eqb (a b : pelem) : bool :=
   match a, b with
   | PK x, PK y => beq_bytes x y
@@ -54,13 +77,13 @@ Fixpoint path_same_arr (a b : path) : bool :=
 
 (* The streaming algorithm run with the document order and the path relations: the algorithm as
    intended by its comments. *)
-Definition three_way_doc := three_way doc_cmp path_prefix path_same_arr.
+Definition three_way_doc := three_way tcmp path_prefix path_same_arr.
 
 (* ---------- the merge, declaratively ----------
    Two edits clash when they are at the same location with different outcomes, when one is inside
    the value the other replaces / removes, or when they touch two different places of one array. *)
 Definition clash (dl dr : diff) : bool :=
-  match doc_cmp (d_key dl) (d_key dr) with
+  match tcmp (d_key dl) (d_key dr) with
   | Eq => match same_key_step dl dr with None => true | Some _ => false end
   | _ => path_same_arr (d_key dl) (d_key dr)
          || path_prefix (d_key dl) (d_key dr) || path_prefix (d_key dr) (d_key dl)
@@ -89,6 +112,44 @@ Definition merge_spec (b l r : json) : mres :=
     let L := json_diff b l in
     let R := json_diff b r in
     if conflict_spec L R then MConflict else MMerged (apply_edits (ops_spec R) l).
+
+(* ---------- decidable side conditions under which MergeJSON is proved to be the declarative merge ----------
+   Each excludes one class of the known deviations of the implementation. *)
+Definition path_rel (a b : path) : bool := path_same_arr a b || path_prefix a b || path_prefix b a.
+
+Definition comparison_eqb (a b : comparison) : bool :=
+  match a, b with Eq, Eq | Lt, Lt | Gt, Gt => true | _, _ => false end.
+
+(* (1) on every (left edit, right edit) pair, what the implementation computes on the serialized keys
+   (bytes.Compare, IsJsonKeyPrefix, JsonKeysModifySameArray) is what the document order and the path
+   relations say — fails for sibling keys one of which is a proper prefix of the other *)
+Definition raw_agrees_pair (a b : path) : bool :=
+  comparison_eqb (raw_kcmp a b) (tcmp a b)
+  && Bool.eqb (raw_kprefix a b) (path_prefix a b) && Bool.eqb (raw_kprefix b a) (path_prefix b a)
+  && Bool.eqb (raw_ksame_arr a b) (path_same_arr a b).
+Definition raw_agrees (L R : list diff) : bool :=
+  forallb (fun l => forallb (fun r => raw_agrees_pair (d_key l) (d_key r)) R) L.
+
+(* (2) no two edits of one side are nested or in one array — the clash check between stream heads is
+   then complete, and no array index shifts under the feet of a later edit *)
+Fixpoint pairwise_unrelated (L : list diff) : bool :=
+  match L with
+  | [] => true
+  | d :: t => forallb (fun e => negb (path_rel (d_key d) (d_key e))) t && pairwise_unrelated t
+  end.
+
+(* (3) a removal is the last right-side edit (the implementation applies edits in stream order, the
+   declarative merge applies removals last) *)
+Fixpoint removes_last (ops : list op) : bool :=
+  match ops with
+  | [] => true
+  | o :: t => if is_remove o then (match t with [] => true | _ => false end) else removes_last t
+  end.
+
+Definition merge_side_conditions (b l r : json) : bool :=
+  raw_agrees (json_diff b l) (json_diff b r)
+  && pairwise_unrelated (json_diff b l) && pairwise_unrelated (json_diff b r)
+  && removes_last (ops_spec (json_diff b r)).
 
 Definition mres_eqb (a b : mres) : bool :=
   match a, b with
